@@ -5,6 +5,7 @@
 
 mod out;
 mod rng;
+mod sm;
 mod streams;
 
 use out::Sink;
@@ -61,6 +62,7 @@ fn main() {
         "time" => streams::time::run(&o, &mut rng),
         "cup" => streams::cup::run(&o, &mut rng),
         "uri" => streams::uri::run(&o, &mut rng),
+        "sm" => streams::sm::run(&o, &mut rng),
         "resp" => streams::resp::run(&o, &mut rng),
         "wire-req" => streams::wire_req::run(&o, &mut rng),
         s => { eprintln!("unknown stream {}", s); std::process::exit(2); }
